@@ -73,6 +73,10 @@ def build(case):
     return b"".join(int(v).to_bytes(sw, "little", signed=True) for v in vals)
 
 
+# out of range by far: beyond int32 / int64 / uint64, and beyond anything a fixed-size integer holds
+HUGE_INDEXES = (2**31, -2**31 - 1, 2**63 - 1, 2**63, 2**64 - 1, 2**64, -2**63, -2**63 - 1, 10**30, -10**30, 255, 256, 65536)
+
+
 def expect_reject(ch, uc):
     if ch == 1:
         return False
@@ -258,6 +262,7 @@ def explicit_cases():
         {"sw": 4, "ch": 1, "vals": [100000, -5, 7, 12], "uc": None, "thr": ["rel", -0.5], "thr2": ["rel", 0.5], "container": "memoryview_cast"},
         {"sw": 2, "ch": 2, "vals": [300, -2, -300, 5] * 512, "uc": None, "thr": ["rel", -0.5], "thr2": ["rel", 0.5], "magic_len": 1024},
         {"sw": 1, "ch": 1, "vals": [100, -100, 7] * 85 + [100, -100], "uc": None, "thr": ["abs", 30.0], "thr2": ["rel", 1e-6], "magic_len": 257},
+    ] + [{"sw": 2, "ch": 2, "vals": [100, -100, 7, 9], "uc": h, "thr": ["abs", 30.0], "thr2": ["rel", 1.0]} for h in HUGE_INDEXES] + [
     ]
     return out
 
@@ -291,7 +296,7 @@ def strategy(draw, maxn):
                 "thr": draw(st.floats(-20, 20 * sw * 2 + 10, allow_nan=False))}
     uc = draw(st.one_of(
         st.sampled_from(NAMES_OK), st.integers(-ch - 2, ch + 1), st.integers(-ch, ch - 1),
-        st.sampled_from(NAMES_OK), st.sampled_from(NAMES_BAD)))
+        st.sampled_from(NAMES_OK), st.sampled_from(NAMES_BAD), st.sampled_from(HUGE_INDEXES)))
     how = draw(st.integers(0, 11))
     if how == 0:
         return {"sw": sw, "ch": ch, "n": draw(st.integers(1, 40)), "pow": draw(st.integers(0, POWS[sw])),
